@@ -2,6 +2,7 @@ package mbapp
 
 import (
 	"context"
+	"io"
 	"sync"
 )
 
@@ -16,6 +17,7 @@ type ask struct {
 	respBuf []byte
 	n       int
 	errCode uint8
+	err     error
 }
 
 func (a *ask) await(ctx context.Context) error {
@@ -31,7 +33,12 @@ func (a *ask) await(ctx context.Context) error {
 func (a *ask) complete(resp []byte, errCode uint8) {
 	a.once.Do(func() {
 		a.errCode = errCode
-		a.n = copy(a.respBuf, resp)
+		if len(resp) > len(a.respBuf) {
+			// the response does not fit the caller's buffer: report that instead of truncating it
+			a.err = io.ErrShortBuffer
+		} else {
+			a.n = copy(a.respBuf, resp)
+		}
 		close(a.done)
 	})
 }
